@@ -17,3 +17,33 @@ Print Assumptions C10_string_constants_unchanged.
 Theorem C10_static_tables_unchanged : Gen.Consts.tables = Golden.Consts.tables.
 Proof. exact (eq_refl Golden.Consts.tables). Qed.
 Print Assumptions C10_static_tables_unchanged.
+
+(* ---------- the container model writes what the reference encoder wrote ---------- *)
+(* Golden/Streams.v holds streams produced by the vendored reference build for the NONE / NONE pipeline (no
+   checksum, 32-bit, 64-bit; one block, two blocks, a 15-byte raw block; with and without the size in the header).
+   The model of the container (Model/Container.v with the checksums of Model/XXHash.v) - which every run compares
+   with the current code (ctm, xxm) - reproduces them bit for bit and parses them back: a change of the format
+   that is made consistently in the writer, the reader and the model still fails here. *)
+From KV Require Import Model.Header Model.Container Model.XXHash Model.Writer Golden.Streams.
+From Coq Require Import NArith.
+Import ListNotations.
+Open Scope N_scope.
+
+Definition gold_ok (cfg : N * N * N) (data stream : list N) : bool :=
+  let '(ck, bs, hint) := cfg in
+  let c := mkH ck 0 0 bs hint in
+  let blocks := chunks bs data in
+  if list_eq_dec N.eq_dec (write_stream (block_hash ck) c blocks) stream then
+    match parse_stream (block_hash ck) (fun _ => true) (fun _ => true) (S (S (List.length blocks))) 1024 [] stream with
+    | Some (c', frames) => if list_eq_dec N.eq_dec (List.concat (List.map (fun f => match f with PData b => b | _ => [] end) frames)) data
+                           then (h_bsize c' =? bs) && (h_ck c' =? ck) else false
+    | None => false
+    end
+  else false.
+
+Theorem C10_model_reproduces_reference_streams :
+  gold_ok gold0_cfg gold0_data gold0_stream = true /\ gold_ok gold1_cfg gold1_data gold1_stream = true /\
+  gold_ok gold2_cfg gold2_data gold2_stream = true /\ gold_ok gold3_cfg gold3_data gold3_stream = true /\
+  gold_ok gold4_cfg gold4_data gold4_stream = true /\ gold_ok gold5_cfg gold5_data gold5_stream = true.
+Proof. vm_compute. repeat split; reflexivity. Qed.
+Print Assumptions C10_model_reproduces_reference_streams.
